@@ -22,7 +22,7 @@ EXPLANATION = (
     "in-loop OPTIMAL is dominated by all three convergence atoms whose operands are def-use descendants of the primal "
     "residual, dual residual and complementarity gap, FEASIBLE by a primal residual test with literal tolerance <= "
     "0.01, nothing after the loop is OPTIMAL; (O4) sign units - the cost vector is negated exactly when minimize is "
-    "false and every published non-constant objective is negated back under the same condition. NOT decided: "
+    "false and every published non-constant objective is negated back under the same condition. (O6) interior_point.py contains no float operation of a shape that can raise on diverged iterates (no float power, every divisor bounded away from zero, every sqrt argument non-negative by construction). NOT decided: "
     "feasibility within tolerance, equality with the true optimum, UNBOUNDED/INFEASIBLE discrimination, Bland "
     "termination, absence of crashes (numerical)."
 )
@@ -32,6 +32,7 @@ def run(ctx: Ctx):
     check_status_use(ctx)
     check_simplex_verdicts(ctx)
     check_interior(ctx)
+    check_no_raising_float_ops(ctx)
     check_pivot_thresholds(ctx)
     check_sign_units(ctx, "simplex", "solve_lp", ["_extract"])
     check_sign_units(ctx, "interior_point", "solve_lp_interior", [])
@@ -198,6 +199,70 @@ def _def_closure(fn_node, name: str, levels: int = 2) -> set[str]:
         seen |= nxt
         frontier = nxt
     return seen
+
+
+def check_no_raising_float_ops(ctx: Ctx):
+    """'does not crash on infeasible or unbounded input': the iterates of a diverging run reach inf/nan.  Float `*`,
+    `+`, `-`, comparisons, `sqrt(inf)`, `sqrt(nan)` then return inf/nan - but `x ** k` raises OverflowError, `/ 0.0`
+    raises ZeroDivisionError and `sqrt(negative)` raises ValueError.  Every power, divisor and sqrt argument of
+    interior_point.py must be of a shape that cannot raise."""
+    m = ctx.repo.module("interior_point")
+    n_pow = n_div = n_sqrt = 0
+    for q in sorted(m.funcs):
+        f = m.funcs[q]
+        cfg = cfg_of(f.node)
+        gv = GuardView(cfg)
+        for n in own_nodes(f.node):
+            if isinstance(n, ast.BinOp) and isinstance(n.op, ast.Pow) and not isinstance(n.left, ast.Constant):
+                n_pow += 1
+                ctx.ob("C03-O6", "R35 NO-RAISING-FLOAT-OP", f, "no float power (a square is written as a product)", False, f"`{ast.unparse(n)[:60]}` raises OverflowError once the operand exceeds about 1e154 (a product returns inf): diverged iterates of an infeasible or unbounded LP make the call crash instead of returning a status", node=n)
+            if isinstance(n, ast.BinOp) and isinstance(n.op, (ast.Div, ast.FloorDiv, ast.Mod)):
+                n_div += 1
+                d = n.right
+                ok = False
+                why = ""
+                if isinstance(d, ast.Constant) and d.value not in (0, 0.0):
+                    ok = True
+                elif isinstance(d, ast.Call) and ast.unparse(d.func) == "max" and any((isinstance(a, ast.Name) and a.id == "eps") or (isinstance(a, ast.Constant) and isinstance(a.value, (int, float)) and a.value > 0) for a in d.args):
+                    ok = True
+                elif isinstance(d, ast.Name) and d.id == "n_total":
+                    # n_total = n + m with the `m == 0 or n == 0` early return before it
+                    defs = [x for x in own_nodes(f.node) if isinstance(x, ast.Assign) and ast.unparse(x.targets[0]) == "n_total"]
+                    ok = len(defs) == 1 and ast.unparse(defs[0].value) in ("n + m", "m + n") and any(a.startswith("NAND(") or a in (atom_of("m != 0"), atom_of("n != 0")) or "0 == m" in a or "0 != m" in a for a in gv.guard_atoms(cfg.node_of(defs[0]), stable_only=False))
+                    why = "n_total = n + m behind the empty-problem early return"
+                else:
+                    at = gv.guard_atoms(cfg.stmt_node_containing(n), stable_only=False)
+                    dt = ast.unparse(d)
+                    for a in at:
+                        for cst in ("1e-12", "-1e-12", "eps"):
+                            if a in (atom_of(f"{dt} > {cst}"), atom_of(f"{dt} < {cst}")) and not (cst == "eps" and a == atom_of(f"{dt} < eps")):
+                                ok = True
+                ctx.ob("C03-O6", "R35 NO-RAISING-FLOAT-OP", f, f"divisor `{ast.unparse(d)[:40]}` is bounded away from zero (max(.., eps), non-zero constant, or a dominating strict comparison)", ok, why or "a zero divisor raises ZeroDivisionError", node=n)
+            if isinstance(n, ast.Call) and ast.unparse(n.func) in ("sqrt", "math.sqrt") and n.args:
+                n_sqrt += 1
+                a = n.args[0]
+                ok = False
+                if isinstance(a, ast.Call) and ast.unparse(a.func) == "sum" and a.args and isinstance(a.args[0], ast.GeneratorExp):
+                    e = a.args[0].elt
+                    ok = isinstance(e, ast.BinOp) and ((isinstance(e.op, ast.Mult) and ast.unparse(e.left) == ast.unparse(e.right)) or (isinstance(e.op, ast.Pow) and ast.unparse(e.right) == "2"))
+                elif isinstance(a, ast.Name):
+                    blk = _block_of(f.node, cfg.stmt_node_containing(n).ast)
+                    i = blk.index(cfg.stmt_node_containing(n).ast) if blk and cfg.stmt_node_containing(n).ast in blk else -1
+                    prev = blk[i - 1] if i > 0 else None
+                    ok = isinstance(prev, ast.If) and ast.unparse(prev.test) in (f"{a.id} <= 0", f"{a.id} <= 0.0") and any(isinstance(x, ast.Assign) and ast.unparse(x.targets[0]) == a.id and ast.unparse(x.value) == "eps" for x in prev.body)
+                ctx.ob("C03-O6", "R35 NO-RAISING-FLOAT-OP", f, f"sqrt argument `{ast.unparse(a)[:40]}` cannot be negative (sum of squares, or clamped to eps just before)", ok, "sqrt of a negative number raises ValueError", node=n)
+    ctx.floor("divisions in interior_point.py", n_div, 8)
+    ctx.floor("sqrt calls in interior_point.py", n_sqrt, 3)
+    ctx.ob("C03-O6", "R35 NO-RAISING-FLOAT-OP", None, "interior_point.py contains no float power", n_pow == 0, "", rel=m.rel, fname="<module>")
+
+
+def _block_of(fn_node, stmt):
+    for n in ast.walk(fn_node):
+        for fld in ("body", "orelse", "finalbody"):
+            b = getattr(n, fld, None)
+            if isinstance(b, list) and stmt in b:
+                return b
+    return None
 
 
 def check_interior(ctx: Ctx):
@@ -413,6 +478,29 @@ def _v_ratio_threshold(tree):
     M.replace_expr(g, lambda e: M.src_is(e, "matrix[i][enter] > eps"), M.expr("matrix[i][enter] > 0"))
 
 
+def _v_ip_pow(tree):
+    g = M.find_func(tree, "solve_lp_interior")
+    M.replace_expr(g, lambda e: isinstance(e, ast.BinOp) and M.src_is(e, "r * r"), M.expr("r ** 2"), count=2)
+
+
+def _v_ip_pow_final(tree):
+    g = M.find_func(tree, "solve_lp_interior")
+    st = [s for s in g.body if isinstance(s, ast.Assign) and M.src_is(s.targets[0], "primal_inf")]
+    if not st:
+        raise M.Skip("final residual norm not found")
+    st[-1].value = M.expr("sqrt(sum((sum(A_aug[i][j] * x[j] for j in range(n_total)) - b[i]) ** 2 for i in range(m)))")
+
+
+def _v_ip_divisor_unclamped(tree):
+    g = M.find_func(tree, "_solve_newton")
+    M.replace_expr(g, lambda e: M.src_is(e, "max(z[j], eps)"), M.expr("z[j]"))
+
+
+def _v_ip_ratio_unguarded(tree):
+    g = M.find_func(tree, "solve_lp_interior")
+    M.replace_expr(g, lambda e: M.src_is(e, "mu > 1e-12"), M.expr("mu >= 0"))
+
+
 def _t_reformat(tree):
     pass
 
@@ -438,6 +526,10 @@ VARIANTS = [
     M.Variant("interior point FEASIBLE with 1.0 tolerance", IP, _v_ip_loose_feasible, "C03-O3"),
     M.Variant("interior point objective from another vector", IP, _v_ip_stale_objective, "C03-O3"),
     M.Variant("ratio test accepts elements below the pivot-skip threshold (seed C03-A)", SX, _v_ratio_threshold, "C03-O5"),
+    M.Variant("residual norms squared with ** 2 in the loop (seed C03-D)", IP, _v_ip_pow, "C03-O6"),
+    M.Variant("final residual norm squared with ** 2 (original defect)", IP, _v_ip_pow_final, "C03-O6"),
+    M.Variant("Newton scaling divides by z[j] without the eps clamp", IP, _v_ip_divisor_unclamped, "C03-O6"),
+    M.Variant("Mehrotra ratio divides by mu under `mu >= 0`", IP, _v_ip_ratio_unguarded, "C03-O6"),
     M.Variant("twin: reformat", SX, _t_reformat, None),
     M.Variant("twin: reformat interior", IP, _t_reformat, None),
     M.Variant("twin: rename status locals", SX, _t_rename, None),
